@@ -19,7 +19,7 @@
 import Shangrla.Lemmas.NMRange
 
 namespace Shangrla.C13
-open Shangrla.NM
+open Shangrla Shangrla.NM Shangrla.NMRange
 open Shangrla.XR (fin)
 
 /-- what is assumed of the square root -/
@@ -433,7 +433,7 @@ hence `e' ∈ [m, u]` when `m ≤ u` -/
 theorem alpha_alternative_in_range (u m e : Rat) :
     ∃ e' : Rat, XR.npmin (fin u) (XR.npmax (fin e) (fin m)) = fin e' ∧ min m u ≤ e' ∧ e' ≤ u ∧
       (m ≤ u → m ≤ e') := by
-  refine ⟨min u (max e m), by rw [XR.npmax_fin, XR.npmin_fin], ?_, min_le_left _ _, ?_⟩
+  refine ⟨min u (max e m), by rw [XRRange.npmax_fin, XRRange.npmin_fin], ?_, min_le_left _ _, ?_⟩
   · exact le_min (min_le_right _ _) (le_trans (min_le_left _ _) (le_max_right _ _))
   · intro h; exact le_min h (le_max_right _ _)
 
